@@ -35,7 +35,7 @@ func (e *env) resolve(v ssa.Value, bind map[ssa.Value]ssa.Value) ssa.Value {
 			continue
 		}
 		switch v.(type) {
-		case *ssa.Phi, *ssa.Parameter, *ssa.Call, *ssa.Extract:
+		case *ssa.Phi, *ssa.Parameter, *ssa.Call, *ssa.Extract, *ssa.UnOp:
 			if r := e.lookup(v); r != nil && r != v {
 				v = r
 				continue
@@ -553,6 +553,22 @@ func (p *Prog) EnumPaths(fn *ssa.Function, opts PathOpts) ([]*Path, int, error) 
 			case *ssa.Jump:
 				walk(fr, b.Succs[0], 0, b, e)
 				return
+			case *ssa.Store:
+				steps = append(steps, Step{In: in, Env: e, Depth: fr.depth})
+				// a local that had to become a memory cell only because a closure READS it (a deferred clean-up, say):
+				// remember what the path stored last, so that a later load sees it
+				if cell, ok := x.Addr.(*ssa.Alloc); ok && readOnlyCapturedCell(cell) {
+					e = &env{phi: cell, val: res(x.Val), parent: e}
+					res = resolveWith(e)
+				}
+			case *ssa.UnOp:
+				if cell, ok := x.X.(*ssa.Alloc); ok && x.Op == token.MUL && readOnlyCapturedCell(cell) {
+					if v := e.lookup(cell); v != nil {
+						e = &env{phi: x, val: v, parent: e}
+						res = resolveWith(e)
+					}
+				}
+				steps = append(steps, Step{In: in, Env: e, Depth: fr.depth})
 			default:
 				steps = append(steps, Step{In: in, Env: e, Depth: fr.depth})
 			}
@@ -653,4 +669,49 @@ func sortedKeys(m map[string]bool) []string {
 	}
 	sort.Strings(ks)
 	return ks
+}
+
+var readOnlyCapturedCache = map[*ssa.Alloc]bool{}
+
+// readOnlyCapturedCell: a local variable cell that is captured by at least one closure, none of which stores to it or
+// lets its address escape, and that is otherwise only stored to and loaded from (as a whole) by its own function.
+// Calls cannot change such a cell behind the function's back, so a load observes the last store on the path.
+func readOnlyCapturedCell(cell *ssa.Alloc) bool {
+	if v, ok := readOnlyCapturedCache[cell]; ok {
+		return v
+	}
+	ok, captured := true, false
+	for _, r := range nonDebugRefs(cell) {
+		switch u := r.(type) {
+		case *ssa.Store:
+			if u.Addr != ssa.Value(cell) {
+				ok = false
+			}
+		case *ssa.UnOp:
+			if u.Op != token.MUL {
+				ok = false
+			}
+		case *ssa.MakeClosure:
+			captured = true
+			g, isFn := u.Fn.(*ssa.Function)
+			if !isFn {
+				ok = false
+				break
+			}
+			for i, b := range u.Bindings {
+				if b != ssa.Value(cell) || i >= len(g.FreeVars) {
+					continue
+				}
+				for _, fr := range nonDebugRefs(g.FreeVars[i]) {
+					if ld, isLd := fr.(*ssa.UnOp); !isLd || ld.Op != token.MUL {
+						ok = false // stored to, or handed on, inside the closure
+					}
+				}
+			}
+		default:
+			ok = false
+		}
+	}
+	readOnlyCapturedCache[cell] = ok && captured
+	return ok && captured
 }
